@@ -1,6 +1,7 @@
 from props import *  # noqa: F401,F403
 
-rc_bin("c02_sched", ["harness/c02_flush_shutdown.cc"], lib=False, shadow=BATCH_SHADOW, shadow_srcs=BATCH_SHADOW_SRCS, repo_srcs=BATCH_PLAIN)
+rc_bin("c02_sched", ["harness/c02_flush_shutdown.cc"], lib=False, shadow=BATCH_SHADOW + READER_SHADOW, shadow_srcs=BATCH_SHADOW_SRCS + READER_SHADOW_SRCS, repo_srcs=BATCH_PLAIN)
+rc_bin("c02_provider", ["harness/c02_provider.cc"], lib=True)
 PROPS["C02"] = dict(
     level_text="Same schedule-controlled engine as C01, biased to control operations (concurrent ForceFlush callers incl. producers that flush right after producing, Shutdown racing flushes, repeated/cross-thread Shutdown, destruction-only shutdown, operations after shutdown, zero/finite/max timeouts, exporters whose Export/ForceFlush/Shutdown are slow or report failure). Oracles over logical stamps: a ForceFlush that returned true implies every record produced before its call was exported (Export returned) before it returned and the exporter's ForceFlush ran inside the window; exporter Shutdown exactly once; no exporter call after the first Shutdown returned; post-shutdown calls are prompt and effect-free; termination = no scheduler-detected deadlock and no step-budget overrun.",
     technique="generated schedules over a deterministic scheduler shim (rapidcheck choice streams) + history-invariant oracle",
@@ -9,5 +10,9 @@ PROPS["C02"] = dict(
     runs=[
         run("bsp", "c02_sched", "bsp_sched", "rc", dict(procs=6, cases=1500), dict(procs=10, cases=20000), asan_extra=SCHED_ASAN),
         run("blp", "c02_sched", "blp_sched", "rc", dict(procs=6, cases=1500), dict(procs=6, cases=20000), asan_extra=SCHED_ASAN),
+        run("tracer-provider", "c02_provider", "tracer_provider", "rc", dict(procs=1, cases=1500), dict(procs=2, cases=15000)),
+        run("logger-provider", "c02_provider", "logger_provider", "rc", dict(procs=1, cases=1500), dict(procs=2, cases=15000)),
+        run("meter-provider", "c02_provider", "meter_provider", "rc", dict(procs=1, cases=1500), dict(procs=2, cases=15000)),
+        run("reader", "c02_sched", "reader_sched", "rc", dict(procs=4, cases=1500), dict(procs=6, cases=20000), asan_extra=SCHED_ASAN),
     ],
 )
